@@ -46,6 +46,32 @@ func removeHopByHopHeaders(header http.Header) {
 	}
 }
 
+// url.URL keeps the path as the client wrote it in RawPath, but EscapedPath() disregards it when it
+// holds a character net/url wants escaped (such as '|') and rebuilds the path from its decoded form:
+// the client's own escapes are lost ("%2F" becomes "/", "%2E" becomes "."), for the cache key and
+// for the upstream request alike. Escape just the characters net/url objects to, so RawPath counts.
+func restoreRawPath(r *http.Request) {
+	raw := r.URL.RawPath
+	if raw == "" || r.URL.EscapedPath() == raw {
+		return
+	}
+	var b strings.Builder
+	for i := 0; i < len(raw); i++ {
+		c := raw[i]
+		switch {
+		case c >= 'a' && c <= 'z', c >= 'A' && c <= 'Z', c >= '0' && c <= '9',
+			strings.IndexByte("-._~!$&'()*+,;=:@/%", c) >= 0:
+			b.WriteByte(c)
+		default:
+			fmt.Fprintf(&b, "%%%02X", c)
+		}
+	}
+	escaped := b.String()
+	if decoded, err := url.PathUnescape(escaped); err == nil && decoded == r.URL.Path {
+		r.URL.RawPath = escaped
+	}
+}
+
 func addrToUrl(addr string, httpsDefault bool) (*url.URL, error) {
 	if !strings.HasPrefix(addr, "http://") && !strings.HasPrefix(addr, "https://") {
 		if httpsDefault {
